@@ -44,9 +44,10 @@ namespace cnl {
         template<>
         struct overflow_polarity<add_op> {
             template<typename Lhs, typename Rhs>
-            [[nodiscard]] constexpr auto operator()(Lhs const&, Rhs const& rhs) const
+            [[nodiscard]] constexpr auto operator()(Lhs const& lhs, Rhs const& rhs) const
             {
-                return measure_polarity(rhs);
+                // a sum which is out of range is negative iff either operand is negative
+                return (lhs < Lhs{} || rhs < Rhs{}) ? polarity::negative : polarity::positive;
             }
         };
 
@@ -55,7 +56,8 @@ namespace cnl {
             template<typename Lhs, typename Rhs>
             [[nodiscard]] constexpr auto operator()(Lhs const&, Rhs const& rhs) const
             {
-                return -measure_polarity(rhs);
+                // a difference which is out of range is positive iff the subtrahend is negative
+                return (rhs < Rhs{}) ? polarity::positive : polarity::negative;
             }
         };
 
